@@ -18,6 +18,7 @@ import (
 	"reflect"
 	"sort"
 	"strings"
+	"sync"
 	"testing"
 	"time"
 
@@ -35,7 +36,9 @@ import (
 	cid "github.com/ipfs/go-cid"
 	ipns "github.com/ipfs/go-ipns"
 	libp2p "github.com/libp2p/go-libp2p"
+	"github.com/libp2p/go-libp2p-core/control"
 	host "github.com/libp2p/go-libp2p-core/host"
+	"github.com/libp2p/go-libp2p-core/network"
 	peer "github.com/libp2p/go-libp2p-core/peer"
 	rpc "github.com/libp2p/go-libp2p-gorpc"
 	dht "github.com/libp2p/go-libp2p-kad-dht"
@@ -123,9 +126,41 @@ func endpoints() []endpoint {
 
 // ------------------------------------------------------------------- hosts
 
+// blockGater is a libp2p ConnectionGater refusing (both directions) the peers
+// put on its list: it keeps two hosts apart whatever the DHT discovers.
+type blockGater struct {
+	mu      sync.Mutex
+	blocked map[peer.ID]bool
+}
+
+func (g *blockGater) block(p peer.ID) {
+	g.mu.Lock()
+	if g.blocked == nil {
+		g.blocked = map[peer.ID]bool{}
+	}
+	g.blocked[p] = true
+	g.mu.Unlock()
+}
+func (g *blockGater) ok(p peer.ID) bool {
+	g.mu.Lock()
+	defer g.mu.Unlock()
+	return !g.blocked[p]
+}
+func (g *blockGater) InterceptPeerDial(p peer.ID) bool               { return g.ok(p) }
+func (g *blockGater) InterceptAddrDial(p peer.ID, _ ma.Multiaddr) bool { return g.ok(p) }
+func (g *blockGater) InterceptAccept(network.ConnMultiaddrs) bool    { return true }
+func (g *blockGater) InterceptSecured(_ network.Direction, p peer.ID, _ network.ConnMultiaddrs) bool {
+	return g.ok(p)
+}
+func (g *blockGater) InterceptUpgraded(network.Conn) (bool, control.DisconnectReason) { return true, 0 }
+
 func fullHost() (host.Host, *pubsub.PubSub, *dual.DHT, error) {
+	return gatedHost(&blockGater{})
+}
+
+func gatedHost(g *blockGater) (host.Host, *pubsub.PubSub, *dual.DHT, error) {
 	ctx := context.Background()
-	h, err := libp2p.New(ctx, libp2p.ListenAddrStrings("/ip4/127.0.0.1/tcp/0"))
+	h, err := libp2p.New(ctx, libp2p.ListenAddrStrings("/ip4/127.0.0.1/tcp/0"), libp2p.ConnectionGater(g))
 	if err != nil {
 		return nil, nil, nil, err
 	}
